@@ -168,8 +168,20 @@ def do_random(spec):
             else:
                 miss = sorted(exp - got)
                 extra = sorted(got - exp)
+
+                def edges_from_seen(target):
+                    """forms of the ground-truth edges that lead from a file Cython did reach to `target`"""
+                    out = []
+                    for x in sorted(got | {q}):
+                        for (t, form) in tree['cimports'].get(x, []) + tree['includes'].get(x, []):
+                            if t == target:
+                                out.append(form)
+                    return out
                 if miss:
-                    key = 'scan:missed:' + forms.get(miss[0], 'unknown')
+                    cands = [(m_, edges_from_seen(m_)) for m_ in miss]
+                    cands = [c for c in cands if c[1]] or [(miss[0], [forms.get(miss[0], 'unknown')])]
+                    fl = sorted(cands[0][1], key=lambda f: (not f.startswith('from-pkg-cimport-module'), f))
+                    key = 'scan:missed:' + fl[0]
                 else:
                     key = 'scan:extra:' + forms.get(extra[0], 'unknown')
             res['mismatches'][key] = res['mismatches'].get(key, 0) + 1
